@@ -437,8 +437,10 @@ def router_oracle(c, rec, prop):
                 return "route %d: callback not yet dropped when shutdown() returned" % i
         for h in [e[1] for e in log if e[1] >= 2000]:
             pass
-        if any(e[0] == "call" and e[1] >= 2000 for e in log):
-            return "a route offered after shutdown() had returned (or while it was pending) was invoked"
+        # (routes offered while a shutdown request may or may not already hold the proxy - handlers 1000.. and 3000.. - are only
+        # required to be dropped exactly once: whether the registration won the race is the scheduler's choice)
+        if any(e[0] == "call" and 2000 <= e[1] < 3000 for e in log):
+            return "a route offered after shutdown() had returned was invoked"
         if not any(e[0] == "drop" and e[1] == 2000 for e in log):
             return "a route offered after shutdown() had returned was not dropped"
         for j in range(c["late"]):
